@@ -202,19 +202,26 @@ def check(d, s):
 
 
 def shard(spec):
-    d, words = spec
+    """One fresh process per shard; every text is put to all five dialect sets in
+    the given order, so that state leaking from one dialect's objects to
+    another's (a cache shared between encoder classes, say) shows the same way
+    on every run."""
+    order, words = spec
     acc = Acc()
     for s in words:
-        vs, cls = check(d, s)
-        acc.n += 1
-        acc.outcomes[cls] += 1
-        if vs:
-            for v in vs:
-                acc.violation(v["case"], v["diagnosis"], v["detail"],
-                              sig=v.get("sig") or "%s|%s" % (v["diagnosis"], re.sub(r"[a-z]", "a", re.sub(r"[0-9]", "9", s))[:12]))
-        else:
-            acc.nontrivial += 1
-    acc.sample({"dialect": d, "texts": words[:3]}, cap=1)
+        for i, d in enumerate(order):
+            vs, cls = check(d, s)
+            acc.n += 1
+            acc.outcomes[cls] += 1
+            if vs:
+                for v in vs:
+                    c = dict(v["case"], order=list(order[:i + 1]))
+                    acc.violation(c, v["diagnosis"], v["detail"],
+                                  sig=v.get("sig") or "%s|%s" % (
+                                      v["diagnosis"], re.sub(r"[a-z]", "a", re.sub(r"[0-9]", "9", s))[:12]))
+            else:
+                acc.nontrivial += 1
+    acc.sample({"order": list(order), "texts": words[:3]}, cap=1)
     return acc
 
 
@@ -239,12 +246,20 @@ def words_for(quick):
 def run(ctx):
     W = words_for(ctx.quick)
     nshard = 48 if ctx.quick else 400
-    specs = [(d, W[i::nshard]) for d in impl.DIALECTS for i in range(nshard)]
-    acc = ctx.pmap(shard, specs)
+    fwd = tuple(impl.DIALECTS)
+    orders = [fwd, tuple(reversed(fwd))]
+    specs = [(o, W[i::nshard]) for o in orders for i in range(nshard)]
+    import multiprocessing
+    import random
+    random.Random(ctx.seed).shuffle(specs)
+    acc = Acc()
+    with multiprocessing.get_context("fork").Pool(16, maxtasksperchild=1) as pool:
+        for r in pool.imap_unordered(shard, specs):
+            acc.merge(r)
     cov = {
         "evaluations": acc.n, "distinct_nontrivial": acc.nontrivial,
         "rule": "%d texts (every string of length <= %s over %r%s, plus %d curated borderline texts) x 5 "
-                "grammar/decoder/encoder sets; per text: decoder cascade, 16 token predicates, encoder.encode_string "
+                "grammar/decoder/encoder sets, in both dialect orders, each shard in a fresh process; per text: decoder cascade, 16 token predicates, encoder.encode_string "
                 "and re-decoding of what it wrote; non-trivial = all consistency conditions evaluated and satisfied"
                 % (len(W), "3" if ctx.quick else "4", ALPHA14 if ctx.quick else ALPHA23,
                    " and <= 2 over the 23-character alphabet" if ctx.quick else "", len(CURATED)),
@@ -261,4 +276,7 @@ def run(ctx):
 
 
 def replay(case):
+    # re-issue the same text to the dialects that came before, in the recorded order
+    for d in (case.get("order") or [case["dialect"]])[:-1]:
+        check(d, case["text"])
     return check(case["dialect"], case["text"])[0]
